@@ -63,7 +63,13 @@ impl Prop for C15 {
 			big_blobs: false,
 			min_width_one: false,
 			push_ops: true,
+			scale: 1,
 		};
+		if rng.chance(1, 250) {
+			// blocks whose (compressed) size crosses the encoders' starting buffers, the 8 KiB and the 64 KiB marks
+			let codec = container::gen_codec_ext(rng, true, false);
+			return Scn { spec: container::gen_blob_spec(rng, codec) };
+		}
 		Scn {
 			spec: container::gen_filespec(rng, &profile),
 		}
@@ -72,6 +78,7 @@ impl Prop for C15 {
 	fn exec(&self, scn: &Scn) -> Outcome {
 		let mut out = Outcome::default();
 		let spec = &scn.spec;
+		container::count_scale(spec, &mut out);
 		let env = Env::build(&spec.schema);
 		let sink = SimSink::all();
 		let mut snaps: Vec<Snap> = vec![];
